@@ -20,6 +20,7 @@ import (
 	"math"
 	"os"
 	"reflect"
+	"runtime/pprof"
 	"sync"
 	"sync/atomic"
 
@@ -169,10 +170,30 @@ func b2i(b bool) int {
 	}
 	return 0
 }
+
+// report files a violation. The huge-count panic of DecodeIndex is one class
+// reached by thousands of inputs; it is filed once per maxLength and counted
+// after that so that it neither floods the output nor cuts the sweep short.
+var (
+	hugeSeen  sync.Map
+	hugeCount atomic.Int64
+	otherViol atomic.Int64
+)
+
 func (t *tally) report(f *failure) {
-	if f != nil {
-		t.r.Violation(f.key, f.what, f.art)
+	if f == nil {
+		return
 	}
+	if f.key == "decodeindex-panic-huge-count" {
+		hugeCount.Add(1)
+		if _, dup := hugeSeen.LoadOrStore(fmt.Sprint(f.art["max_length"]), true); dup {
+			return
+		}
+	} else {
+		otherViol.Add(1)
+	}
+	t.r.Add("violations_by_key/"+f.key, 1)
+	t.r.Violation(f.key, f.what, f.art)
 }
 
 // ------------------------------------------------------------ header-level checks
@@ -185,10 +206,7 @@ var hdr sr.ConfluentHeader
 const (
 	panicCount = int64(1) << 46
 	allocCap   = int64(16384)
-	allocMax   = int64(1) << 20
 )
-
-func boundary(c int64) bool { return c&(c-1) == 0 || (c+1)&c == 0 }
 
 // allocSafe reports whether DecodeIndex may be run on an input announcing
 // count indexes under maxLength without a giant allocation.
@@ -196,10 +214,7 @@ func allocSafe(count int64, maxLength int) bool {
 	if maxLength > 0 && int64(maxLength) <= allocCap {
 		return true // rejected before allocating
 	}
-	if count <= allocCap || count >= panicCount {
-		return true
-	}
-	return count <= allocMax && boundary(count)
+	return count <= allocCap || count >= panicCount
 }
 
 var skippedAlloc atomic.Int64
@@ -329,8 +344,30 @@ var prefix = []byte{0xAA, 0x00, 0x55}
 
 // checkEncode runs every encode API for (id, index, payload) and round-trips.
 // apis: "all" or "basic" (Serde.Encode + round trip only).
-func checkEncode(id int, index []int, useIndexOpt bool, payload []byte, apis string, t *tally) *failure {
-	art := map[string]any{"kind": "encode", "id": id, "index": index, "index_opt": useIndexOpt, "payload": hx(payload)}
+type encCtx struct {
+	id          int
+	index       []int
+	useIndexOpt bool
+	s, s2       *sr.Serde // EncodeFn / AppendEncodeFn registrations
+}
+
+func newEncCtx(id int, index []int, useIndexOpt bool) *encCtx {
+	mk := func(opts ...sr.EncodingOpt) *sr.Serde {
+		s := sr.NewSerde()
+		if useIndexOpt {
+			opts = append(opts, sr.Index(index...))
+		}
+		s.Register(id, val{}, opts...)
+		return s
+	}
+	return &encCtx{id, index, useIndexOpt, mk(sr.EncodeFn(encFn), sr.DecodeFn(decFn)), mk(sr.AppendEncodeFn(appEncFn), sr.DecodeFn(decFn))}
+}
+
+func checkEncode(c *encCtx, payload []byte, apis string, t *tally) *failure {
+	id, index, s, s2 := c.id, c.index, c.s, c.s2
+	art := func() map[string]any {
+		return map[string]any{"kind": "encode", "id": id, "index": index, "index_opt": c.useIndexOpt, "payload": hx(payload)}
+	}
 	want := append(refHeader(id, index), payload...)
 	v := val{P: payload}
 	var f *failure
@@ -340,7 +377,7 @@ func checkEncode(id int, index []int, useIndexOpt bool, payload []byte, apis str
 		func() {
 			defer func() {
 				if p := recover(); p != nil {
-					f = &failure{"encode-panic/" + api, fmt.Sprintf("%s(id=%d index=%v payload=% x) panicked: %v", api, id, index, payload, p), art}
+					f = &failure{"encode-panic/" + api, fmt.Sprintf("%s(id=%d index=%v payload=% x) panicked: %v", api, id, index, payload, p), art()}
 				}
 			}()
 			out, err = fn()
@@ -351,21 +388,12 @@ func checkEncode(id int, index []int, useIndexOpt bool, payload []byte, apis str
 		t.evals++
 		exp := append(append([]byte{}, pre...), want...)
 		if err != nil || !bytes.Equal(out, exp) {
-			f = &failure{"encode-bytes/" + api, fmt.Sprintf("%s(id=%d index=%v payload=% x) = % x, %v; Confluent wire format is % x", api, id, index, payload, out, err, exp), art}
+			f = &failure{"encode-bytes/" + api, fmt.Sprintf("%s(id=%d index=%v payload=% x) = % x, %v; Confluent wire format is % x", api, id, index, payload, out, err, exp), art()}
 			return false
 		}
 		return true
 	}
 
-	mk := func(opts ...sr.EncodingOpt) *sr.Serde {
-		s := sr.NewSerde()
-		if useIndexOpt {
-			opts = append(opts, sr.Index(index...))
-		}
-		s.Register(id, val{}, opts...)
-		return s
-	}
-	s := mk(sr.EncodeFn(encFn), sr.DecodeFn(decFn))
 	if !try("Serde.Encode", func() ([]byte, error) { return s.Encode(v) }, nil) {
 		return f
 	}
@@ -373,7 +401,6 @@ func checkEncode(id int, index []int, useIndexOpt bool, payload []byte, apis str
 		if !try("Serde.AppendEncode", func() ([]byte, error) { return s.AppendEncode(append([]byte{}, prefix...), v) }, prefix) {
 			return f
 		}
-		s2 := mk(sr.AppendEncodeFn(appEncFn), sr.DecodeFn(decFn))
 		if !try("Serde.Encode/AppendEncodeFn", func() ([]byte, error) { return s2.Encode(v) }, nil) {
 			return f
 		}
@@ -399,33 +426,33 @@ func checkEncode(id int, index []int, useIndexOpt bool, payload []byte, apis str
 	func() {
 		defer func() {
 			if p := recover(); p != nil {
-				f = &failure{"roundtrip-panic", fmt.Sprintf("decoding % x panicked: %v", want, p), art}
+				f = &failure{"roundtrip-panic", fmt.Sprintf("decoding % x panicked: %v", want, p), art()}
 			}
 		}()
 		var out val
 		t.evals++
 		if err := s.Decode(want, &out); err != nil || !bytes.Equal(out.P, payload) {
-			f = &failure{"roundtrip/Decode", fmt.Sprintf("Decode(% x) = payload % x, %v; encoded payload % x (id=%d index=%v)", want, out.P, err, payload, id, index), art}
+			f = &failure{"roundtrip/Decode", fmt.Sprintf("Decode(% x) = payload % x, %v; encoded payload % x (id=%d index=%v)", want, out.P, err, payload, id, index), art()}
 			return
 		}
 		t.evals++
 		nv, err := s.DecodeNew(want)
 		pv, ok := nv.(*val)
 		if err != nil || !ok || !bytes.Equal(pv.P, payload) {
-			f = &failure{"roundtrip/DecodeNew", fmt.Sprintf("DecodeNew(% x) = %#v, %v; encoded payload % x (id=%d index=%v)", want, nv, err, payload, id, index), art}
+			f = &failure{"roundtrip/DecodeNew", fmt.Sprintf("DecodeNew(% x) = %#v, %v; encoded payload % x (id=%d index=%v)", want, nv, err, payload, id, index), art()}
 			return
 		}
 		if apis == "all" {
 			gid, rest, err := s.DecodeID(want)
 			if err != nil || gid != id {
-				f = &failure{"roundtrip/DecodeID", fmt.Sprintf("DecodeID(% x) = %d, %v; want %d", want, gid, err, id), art}
+				f = &failure{"roundtrip/DecodeID", fmt.Sprintf("DecodeID(% x) = %d, %v; want %d", want, gid, err, id), art()}
 				return
 			}
 			if len(index) > 0 {
 				for _, ml := range []int{0, len(index), len(index) + 1, math.MaxInt} {
 					gi, r2, err := s.DecodeIndex(rest, ml)
 					if err != nil || !sameInts(gi, index) || !bytes.Equal(r2, payload) {
-						f = &failure{"roundtrip/DecodeIndex", fmt.Sprintf("DecodeIndex(% x, %d) = %v, % x, %v; want %v, % x", rest, ml, gi, r2, err, index, payload), art}
+						f = &failure{"roundtrip/DecodeIndex", fmt.Sprintf("DecodeIndex(% x, %d) = %v, % x, %v; want %v, % x", rest, ml, gi, r2, err, index, payload), art()}
 						return
 					}
 				}
@@ -482,7 +509,11 @@ func parallel(n int, fn func(i int, t *tally), r *ev.Run) {
 			t := newTally(r)
 			for {
 				i := int(atomic.AddInt64(&next, 1) - 1)
-				if i >= n || r.Violations() > 100 {
+				if i >= n {
+					break
+				}
+				if otherViol.Load() > 100 {
+					r.NotExhaustive("stopped after more than 100 violations")
 					break
 				}
 				fn(i, t)
@@ -525,18 +556,20 @@ func partEncode(r *ev.Run) {
 	r.Set("encode_id_path_pairs", len(cases))
 	parallel(len(cases), func(i int, t *tally) {
 		c := cases[i]
+		ctx := newEncCtx(c.id, c.path, len(c.path) > 0)
 		for _, pl := range short {
-			t.report(checkEncode(c.id, c.path, len(c.path) > 0, pl, "all", t))
+			t.report(checkEncode(ctx, pl, "all", t))
 		}
 		if len(c.path) == 0 {
 			// depth 0 both ways: no Index option at all, and Index() with no values
+			ctx0 := newEncCtx(c.id, nil, true)
 			for _, pl := range short {
-				t.report(checkEncode(c.id, nil, true, pl, "all", t))
+				t.report(checkEncode(ctx0, pl, "all", t))
 			}
 		}
 		if ev.Thorough() || sel[fmt.Sprint(c.path)] {
 			for _, pl := range two {
-				t.report(checkEncode(c.id, c.path, len(c.path) > 0, pl, "basic", t))
+				t.report(checkEncode(ctx, pl, "basic", t))
 			}
 		}
 	}, r)
@@ -898,15 +931,22 @@ func main() {
 		replay(os.Args[2])
 		return
 	}
+	if pp := os.Getenv("VERIF_PPROF"); pp != "" {
+		f, _ := os.Create(pp)
+		pprof.StartCPUProfile(f)
+		defer pprof.StopCPUProfile()
+	}
 	r := ev.New("C36", "exploration")
 	r.Rule("encode: ids {0,1,255,256,2^31-1} x every index path of depth 0..3 over {0,1,63,64,-1,2^31-1} (thorough adds -64,-65,MaxInt64,MinInt64) x every payload of <=1 byte through 7 encode APIs + round trip, every 2-byte payload for 8 selected paths (thorough: all paths); shared Serde with all 1290 (id,path) registrations + 2 index-less ids: round trip, every truncation and every single-byte substitution from {00,01,7f,80,ff} of each valid message under its id and under an unregistered id, every byte string of length <=2 (thorough 3) bare and after 5 different magic+id heads; ConfluentHeader.DecodeID/DecodeIndex with maxLength {0,1,5,MaxInt} on every byte string of length <=2 (thorough 3) and on every sequence of <=4 zig-zag varints over a value set incl. MaxInt64/2^62 with tails, truncations and substitutions; distinct = outcome classes (api, verdict, index length, rest length)")
 	r.Assume("reference encoder/parser written from the Confluent wire-format description (magic 0, 4-byte big-endian id, zig-zag varint message-index array, [0] as single 0 byte)",
 		"inputs that are not byte-for-byte outputs of the reference encoder (non-minimal varints, [0] spelled 02 00) may be rejected or accepted; if accepted the result must equal the reference parse",
-		"DecodeIndex allocates the announced array before reading it; when maxLength does not bound it (0, MaxInt) inputs announcing a count in (16384, 2^46) are only run at power-of-two boundaries up to 2^20 and skipped above (a real multi-gigabyte allocation, or the runtime's unrecoverable out-of-memory abort); counts >= 2^46 are run (the runtime refuses them with a recoverable panic)")
+		"DecodeIndex allocates the announced array before reading it; when maxLength does not bound it (0, MaxInt) inputs announcing a count in (16384, 2^46) are skipped (a real allocation of up to terabytes, or the runtime's unrecoverable out-of-memory abort); counts >= 2^46 are run (the runtime refuses them with a recoverable panic)")
 	partEncode(r)
 	partShared(r)
 	partHeader(r)
 	r.Set("decodeindex_inputs_skipped_over_alloc_cap", skippedAlloc.Load())
+	r.Set("decodeindex_huge_count_panic_inputs", hugeCount.Load())
+	pprof.StopCPUProfile()
 	r.Finish()
 }
 
@@ -940,11 +980,11 @@ func replay(path string) {
 	case "decodeid":
 		f = checkDecodeID(b, sr.NewSerde(), t)
 	case "encode":
-		f = checkEncode(a.ID, a.Index, a.IndexOpt, pl, "all", t)
+		f = checkEncode(newEncCtx(a.ID, a.Index, a.IndexOpt), pl, "all", t)
 	case "serde-decode":
 		f = buildShared([]int{0, 1, 63, 64, -1, math.MaxInt32}).checkDecode(b, t)
 	case "shared-encode":
-		f = checkEncode(a.ID, a.Index, len(a.Index) > 0, pl, "all", t)
+		f = checkEncode(newEncCtx(a.ID, a.Index, len(a.Index) > 0), pl, "all", t)
 	default:
 		ev.InfraError("replay: unknown artefact kind %q", a.Kind)
 	}
